@@ -14,7 +14,10 @@ Sub-properties
   perm     the same fit with permuted data points (per data set), permuted insertion order of the x / y / func /
            prior dictionaries: both fits obey the oracle and agree with each other.
   corrfit  Corr.fit: inclusive fit range (argument, prange or all timeslices), undefined timeslices skipped,
-           result equals the GLS solution on exactly those timeslices.
+           result equals the GLS solution on exactly those timeslices; the options of the fit requested through
+           Corr.fit (priors as list / dict of strings and Obs on any parameter subset in about 40 % of the cases,
+           correlated_fit, method, expected_chisquare) are those of the fit: prior rows, dof, chisquare and
+           p-values as for least_squares (labels priors:*, prior:*, chiexp:*).
   chain    2-3 fits in one process that are handed identical 'value(err)' prior strings, a parameter of the earlier
            fit being a datum of the later one: each fit's priors are its own independent Gaussian inputs.
 """
@@ -39,6 +42,9 @@ RULE = ('Hypothesis-generated fits: model f_key(p,x) = sum_j c_j p[i_j] phi_j(x)
         'to create strong cross-correlations, analysed with S in {2, 1, 3, 0}, shifted to model + z*error; priors '
         '(string / Obs, list / dict, any subset and insertion order); correlated_fit off / estimated / supplied '
         'lower-triangular factor; minimiser; num_grad; insertion orders of all dictionaries and point permutations. '
+        'Corr.fit (sub corrfit): correlators of 4-10 timeslices (some undefined, optional padding) with 1-3 parameter models in '
+        '{1, t, exp(-t/4), sin t}, range by argument / prange / default, and the fit options handed through Corr.fit: '
+        'priors (list / dict, string / Obs, any subset), correlated_fit, method LM / migrad, expected_chisquare. '
         'Non-trivial: a parameter shared by >= 2 data sets, or a prior, or a correlated fit, or data points on '
         'different ensembles; distinct = distinct spec hash. Cases with cond(A^T W A + P) > 1e6, a non-invertible '
         'estimated correlation matrix, inputs without error or a non-converged minimiser are counted as skipped.')
@@ -1154,7 +1160,8 @@ SUBS = [
     Sub('perm', perm_case, perm_oracle, {'quick': 100, 'thorough': 1500}, {'quick': 2, 'thorough': 6},
         doc='permutation of data points and of dictionary insertion orders', max_skip_frac=0.3),
     Sub('corrfit', corrfit_case, corrfit_oracle, {'quick': 150, 'thorough': 1500}, {'quick': 1, 'thorough': 4},
-        doc='Corr.fit: inclusive range, undefined timeslices skipped, equals GLS on those timeslices', max_skip_frac=0.25),
+        doc='Corr.fit: inclusive range, undefined timeslices skipped, equals GLS on those timeslices; priors / correlated_fit / '
+            'method / expected_chisquare requested through Corr.fit act as in least_squares', max_skip_frac=0.25),
     Sub('chain', chain_case, chain_oracle, {'quick': 60, 'thorough': 1500}, {'quick': 1, 'thorough': 4},
         doc='2-3 fits in one process with identical prior strings, a parameter of the earlier fit as datum of the later: '
             'every fit has its own independent prior inputs (GLS with fresh covariance inputs)', max_skip_frac=0.3),
